@@ -12,6 +12,7 @@
 #include "romea_core_common/diagnostic/CheckupGreaterThan.hpp"
 #include "romea_core_common/diagnostic/CheckupLowerThan.hpp"
 #include "romea_core_common/diagnostic/CheckupReliability.hpp"
+#include "romea_core_common/geodesy/WGS84Coordinates.hpp"
 
 using namespace sim;
 namespace rc = romea::core;
@@ -170,6 +171,8 @@ Outcome runPlan(const Plan & p, Ctx & c)
         rc::setReportInfo(total, "header", 42); wantInfo["header"] = "42";
         if (e.i == 2) {const std::string & k0 = p.cus[(size_t)e.list[0] % n].name; rc::setReportInfo(total, k0, std::string("from-header")); wantInfo[k0] = "from-header";}
         std::optional<double> none; rc::setReportInfo(total, "optional", none); wantInfo["optional"] = "";
+        // an info value of another library type, printed through its own operator<< (which sets stream flags)
+        {rc::WGS84Coordinates fix = rc::makeWGS84Coordinates(0.5, 0.25); rc::setReportInfo(total, "fix", fix); std::ostringstream os; os << fix; wantInfo["fix"] = os.str();}
         SIM_PROBE("aggregate_into_header_report_with_info_only");
       }
       int wantWorst = 0; bool wantAll = true;
